@@ -166,6 +166,9 @@ func genHistory(r *gen.Rand, f gen.Flags) history {
 // changes ("ignore-change": the documented fall-back to a normal build).
 func genSpecial(r *gen.Rand, kind string) history {
 	h := history{Kind: kind, Contents: baseContents()}
+	if kind == "gitlink" {
+		h.Kind = "model" // submodule links are inside the Lean model
+	}
 	file := func(c int) ent { return ent{Content: c, Mode: "100644"} }
 	link := ent{Content: -1, Mode: "160000"}
 	idx := func(delta bool) *indexRec { return &indexRec{Delta: delta, Branches: []string{"HEAD"}} }
@@ -230,7 +233,25 @@ func pickIndexed(r *gen.Rand, branches []string) []string {
 func mutate(r *gen.Rand, t map[string]ent, b string, branches []string, state map[string]map[string]ent, prev []map[string]ent, st *stepRec) string {
 	keys := sortedKeys(t)
 	other := gen.Pick(r, branches)
-	switch r.Intn(11) {
+	switch r.Intn(12) {
+	case 11: // a submodule link appears, changes, or turns into a file; a file turns into a submodule link
+		p := gen.Pick(r, allPaths)
+		e, ok := t[p]
+		switch {
+		case !ok && !conflicts(t, p):
+			t[p] = ent{Content: r.Intn(3), Mode: "160000"}
+			return "gitlink-add"
+		case ok && e.Mode == "160000" && r.Bool():
+			t[p] = ent{Content: r.Intn(9), Mode: "100644"}
+			return "gitlink-to-file"
+		case ok && e.Mode == "160000":
+			t[p] = ent{Content: e.Content + 1, Mode: "160000"}
+			return "gitlink-bump"
+		case ok:
+			t[p] = ent{Content: r.Intn(3), Mode: "160000"}
+			return "file-to-gitlink"
+		}
+		return "noop"
 	case 0, 1: // add
 		p := gen.Pick(r, allPaths)
 		if _, ok := t[p]; ok || conflicts(t, p) {
@@ -250,7 +271,7 @@ func mutate(r *gen.Rand, t map[string]ent, b string, branches []string, state ma
 		e := t[p]
 		e.Content = r.Intn(10)
 		if o, ok := state[other][p]; ok && r.Chance(1, 3) {
-			e.Content = o.Content
+			e = o
 		}
 		t[p] = e
 		return "modify"
@@ -304,6 +325,9 @@ func mutate(r *gen.Rand, t map[string]ent, b string, branches []string, state ma
 		}
 		p := gen.Pick(r, keys)
 		e := t[p]
+		if e.Mode == "160000" {
+			return "noop"
+		}
 		e.Mode = gen.Pick(r, []string{"100644", "100755", "120000"})
 		t[p] = e
 		return "chmod"
@@ -361,6 +385,8 @@ func modeCode(m string) int {
 		return 1
 	case "120000":
 		return 2
+	case "160000":
+		return 3 // submodule link
 	}
 	return 9
 }
@@ -403,8 +429,8 @@ func (rn *runner) run(h history, id string) {
 			var es []gen.GitEntry
 			for _, p := range sortedKeys(c.Tree) {
 				e := c.Tree[p]
-				if e.Content < 0 {
-					es = append(es, gen.GitEntry{Mode: "160000", Hash: "1111111111111111111111111111111111111111", Path: p})
+				if e.Mode == "160000" { // submodule link: the commit it names need not exist
+					es = append(es, gen.GitEntry{Mode: "160000", Hash: fmt.Sprintf("%040x", e.Content+2), Path: p})
 					continue
 				}
 				content := []byte(h.Contents[e.Content])
@@ -426,9 +452,6 @@ func (rn *runner) run(h history, id string) {
 			for _, nm := range names {
 				var parts []string
 				for _, l := range leaves {
-					if l.Mode == "160000" {
-						continue // not a file
-					}
 					parts = append(parts, fmt.Sprintf("%d:%d:%d", rn.paths.ID(l.Path), rn.blobs.ID(l.Hash), modeCode(l.Mode)))
 				}
 				emit(gen.Case{In: fmt.Sprintf("commit %d %s", rn.branches.ID(nm), joinOr(parts, ",")), Impl: "ok"})
@@ -554,11 +577,11 @@ func (rn *runner) run(h history, id string) {
 			}
 			got := map[string]int{}
 			verdict, key := "ok", ""
-			var pairs []string
+			var pairs [][2]int
 			for _, fm := range res.Files {
 				got[fm.FileName]++
 				hash := gen.GitBlobHash(fm.Content)
-				pairs = append(pairs, fmt.Sprintf("%d:%d", rn.paths.ID(fm.FileName), rn.blobs.ID(hash)))
+				pairs = append(pairs, [2]int{rn.paths.ID(fm.FileName), rn.blobs.ID(hash)})
 				wh, ok := want[fm.FileName]
 				switch {
 				case !ok:
@@ -577,9 +600,18 @@ func (rn *runner) run(h history, id string) {
 			if key != "" {
 				key = h.Kind + ":" + key
 			}
-			sort.Strings(pairs)
+			sort.Slice(pairs, func(i, j int) bool {
+				if pairs[i][0] != pairs[j][0] {
+					return pairs[i][0] < pairs[j][0]
+				}
+				return pairs[i][1] < pairs[j][1]
+			})
+			var ps []string
+			for _, pr := range pairs {
+				ps = append(ps, fmt.Sprintf("%d:%d", pr[0], pr[1]))
+			}
 			emit(gen.Case{
-				In: fmt.Sprintf("view %d", rn.branches.ID(b)), Impl: joinOr(pairs, ","), Go: verdict, Key: key,
+				In: fmt.Sprintf("view %d", rn.branches.ID(b)), Impl: joinOr(ps, ","), Go: verdict, Key: key,
 				Class: "view:" + mode, Nontrivial: len(want) > 0 && mode == "delta",
 			})
 		}
@@ -624,6 +656,8 @@ func fallbackClass(e string) string {
 		return "threshold"
 	case strings.Contains(e, "branch set"):
 		return "branch-set"
+	case strings.Contains(e, "non-file entry"):
+		return "file-vs-submodule-link"
 	case strings.Contains(e, "not yet supported in delta builds"):
 		return "ignore-file"
 	case strings.Contains(e, "index options"):
@@ -688,14 +722,14 @@ func main() {
 	}
 
 	r := gen.NewRand(f.Seed)
-	n := f.N(14, 400)
+	n := f.N(8, 150)
 	t0 := time.Now()
 	if os.Getenv("C13_ONLY_SPECIAL") == "" {
 		for i := 0; i < n; i++ {
 			rn.run(genHistory(r.Fork(), f), fmt.Sprint(i))
 		}
 	}
-	for i := 0; i < f.N(2, 12); i++ {
+	for i := 0; i < f.N(1, 10); i++ {
 		for _, kind := range []string{"gitlink", "ignore", "ignore-change"} {
 			rn.run(genSpecial(r.Fork(), kind), kind)
 		}
